@@ -63,6 +63,12 @@ thread_local! {
     pub static SPILL_READS: std::cell::Cell<u64> = const { std::cell::Cell::new(0) };
 }
 
+/// Upper bound for one spill area (the largest legitimate use in the checks is far below 1 MiB).
+pub const SPILL_CAP_BYTES: usize = 32 << 20;
+thread_local! {
+    pub static SPILL_CAP_HITS: std::cell::Cell<u64> = const { std::cell::Cell::new(0) };
+}
+
 /// In-memory spill that counts traffic.
 pub struct CountingSpill {
     buf: Vec<u8>,
@@ -77,6 +83,12 @@ impl CountingSpill {
 impl Spill for CountingSpill {
     fn write_at(&mut self, offset: usize, data: &[u8]) -> Result<(), StorageError> {
         let end = offset.checked_add(data.len()).ok_or(StorageError::IoError)?;
+        // A spill area that keeps growing means the subject is thrashing without bound: fail the
+        // operation (the checks report the error) instead of exhausting memory.
+        if end > SPILL_CAP_BYTES {
+            SPILL_CAP_HITS.with(|c| c.set(c.get() + 1));
+            return Err(StorageError::IoError);
+        }
         if end > self.buf.len() {
             self.buf.resize(end, 0);
         }
